@@ -1,6 +1,7 @@
 package main
 
 import (
+	"encoding/base64"
 	"bufio"
 	"bytes"
 	"context"
@@ -218,6 +219,10 @@ func renderYAML(w *world.World, entries []cfgEntry) string {
 		pk := key.VKey()
 		if e.Key == "bad" {
 			pk = "not-a-key+00000000+AAAA"
+		}
+		if e.Key == "stalehash" {
+			// name and key hash of the genuine key, key bytes of another one
+			pk = fmt.Sprintf("%s+%08x+%s", key.Name, key.KeyHash(ref.AlgEd25519), base64.StdEncoding.EncodeToString(append([]byte{ref.AlgEd25519}, w.Unknown.Pub...)))
 		}
 		feeder := e.Feeder
 		if feeder == "unknown" {
